@@ -7,6 +7,16 @@ from vf.ref.rtl_eval import type_width
 
 PASSES = ["default", "simple", "heutopo", "mamba", "unroll"]
 
+
+def sig_of(obj, name):
+  """attribute access that understands list elements: 'xs[2]' -> getattr(obj, 'xs')[2]"""
+  if "[" not in name: return getattr(obj, name)
+  base, rest = name.split("[", 1)
+  v = getattr(obj, base)
+  for idx in rest.rstrip("]").split("]["):
+    v = v[int(idx)]
+  return v
+
 _patched = False
 
 
@@ -82,7 +92,7 @@ class Sim:
     top = self.top
     from pymtl3.datatypes import Bits
     for p, v in cyc["in"].items():
-      cur = getattr(top, p)
+      cur = sig_of(top, p)
       cur @= Bits(cur.nbits, v)
     top.reset @= cyc.get("reset", 0)
 
@@ -93,7 +103,7 @@ class Sim:
       obj = top
       if ip:
         for part in ip.split("."): obj = getattr(obj, part)
-      v = getattr(obj, n)
+      v = sig_of(obj, n)
       out[(ip + "." if ip else "") + n] = int(v.to_bits())
     return out
 
@@ -139,7 +149,10 @@ class OrderRecorder:
       if f in ub:
         host = top.get_update_block_host_component(f)
         ip = repr(host)[2:]                       # "s.c1.g2" -> "c1.g2", "s" -> ""
-        label = ("blk", ip, f.__name__)
+        name = f.__name__
+        pre = "_lambda__" + repr(host).replace(".", "_") + "_"
+        if name.startswith(pre): name = "lam:" + name[len(pre):]      # s.x //= lambda: ...
+        label = ("blk", ip, name)
         self.by_code.setdefault(id(f.__code__), []).append((host, label))
       else:
         # two nets driven by equal constants get the same generated name: number them
